@@ -37,6 +37,7 @@ type Slice struct {
 type FloatV struct {
 	f    float64
 	bits int
+	unk  bool // value not tracked (result of parsing symbolic text): any use of it is unsupported
 }
 
 type Iface struct {
@@ -349,9 +350,9 @@ func (in *Interp) zero0(t types.Type) Val {
 			return in.tt.BV(in.intWidth(u), 0)
 		case u.Info()&types.IsFloat != 0:
 			if u.Kind() == types.Float32 {
-				return FloatV{0, 32}
+				return FloatV{f: 0, bits: 32}
 			}
-			return FloatV{0, 64}
+			return FloatV{f: 0, bits: 64}
 		case u.Info()&types.IsString != 0:
 			return Str{}
 		case u.Kind() == types.UnsafePointer:
